@@ -27,11 +27,19 @@ Cond_C14_Substrate == (IsR /\ IsADLResult(Ev.res)) => (Ev.subSame /\ Ev.reenc)
 Cond_C13_Reify == IsR => Ev.res \notin {"panic", "timeout", "budget", "other"}
 Cond_C13_Op == IsH => (Ev.out \in {"value", "error"} /\ Ev.steps <= Ev.budget + 4096)
 
+\* beyond the listed properties: the generic node-method contract
+HasADL == IsR /\ IsADLResult(Ev.res) /\ DOMAIN Ev.adl # {}
+Cond_X_ADLBytes == (HasADL /\ Ev.kind = "bytes") => ADLBytesOK(Ev.adl)
+Cond_X_ADLBytesLength == (HasADL /\ Ev.kind = "bytes") => ADLBytesLength(Ev.adl)
+Cond_X_ADLMap == (HasADL /\ Ev.kind = "map") => ADLMapOK(Ev.adl)
 Chk(nm, c) == c \/ PrintT(<<"VIOL", nm, l - 1>>)
 Inv_NoPanic == Chk("Inv_NoPanic", Cond_NoPanic)
 Inv_C14_Typed_T == Chk("Inv_C14_Typed_T", Cond_C14_Typed)
 Inv_C14_Substrate == Chk("Inv_C14_Substrate", Cond_C14_Substrate)
 Inv_C13_Reify == Chk("Inv_C13_Reify", Cond_C13_Reify)
 Inv_C13_Op == Chk("Inv_C13_Op", Cond_C13_Op)
+Inv_X_ADLBytes == Chk("Inv_X_ADLBytes", Cond_X_ADLBytes)
+Inv_X_ADLBytesLength == Chk("Inv_X_ADLBytesLength", Cond_X_ADLBytesLength)
+Inv_X_ADLMap == Chk("Inv_X_ADLMap", Cond_X_ADLMap)
 Alias == [l |-> l]
 =============================================================================
